@@ -1504,6 +1504,10 @@ struct TemplateCore {
             }
 
             case QOperation::Remainder: { // %
+                if (right.IsZeroAsInteger()) {
+                    return false;
+                }
+
                 left.Value.Number.Integer = (left % right);
                 left.Type                 = ExpressionType::IntegerNumber;
                 break;
